@@ -7,7 +7,7 @@ patch="$ad/seeded/patch$n.diff"; demo="$ad/seeded/demo$n"
 cd /tmp/mw && git checkout -q -- . && git clean -qfd -e target && git reset -q --hard "$(git -C /repo rev-parse HEAD)"
 echo "== $name: demo WITHOUT patch"
 rm -rf /tmp/mw/seeded; mkdir -p /tmp/mw/seeded; cp -r "$demo" /tmp/mw/seeded/ ; 
-( cd /tmp/mw && sed -i "s#/tmp/agents2\?/[A-Za-z0-9_]*#/tmp/mw#g" seeded/demo$n/run.sh; CARGO_NET_OFFLINE=true timeout 900 bash seeded/demo$n/run.sh >/tmp/mw/demo_clean.log 2>&1; echo "   demo exit (clean tree): $?" )
+( cd /tmp/mw && sed -i "s#/tmp/agents[0-9]*/[A-Za-z0-9_]*#/tmp/mw#g" seeded/demo$n/run.sh; CARGO_NET_OFFLINE=true timeout 900 bash seeded/demo$n/run.sh >/tmp/mw/demo_clean.log 2>&1; echo "   demo exit (clean tree): $?" )
 git apply "$patch" || { echo "PATCH DOES NOT APPLY"; exit 2; }
 echo "== $name: test suite WITH patch"
 ( cd /tmp/mw && CARGO_NET_OFFLINE=true timeout 1200 cargo test --workspace --no-fail-fast --offline 2>&1 | grep -E "^test result|FAILED|failed|error(\[|:)" | head -12 )
